@@ -22,6 +22,34 @@ CHECKS = {
         "code points are excluded by the documented precondition.",
         "DESIGN.md 5/C01",
     ),
+    "C04": (
+        "exploration",
+        "property-based differential testing (Hypothesis expansion-AST "
+        "grammar) against a reference transclusion interpreter",
+        "Generated (template library, page) pairs are expanded by the real "
+        "Wtp.expand and by an independent reference interpreter written from "
+        "the MediaWiki rules in the statement; exact string equality. "
+        "Sampled search over an unbounded domain, not exhaustive.",
+        "Trusts refs/transclude.py and the renderer in gens/exp.py; the "
+        "domain excludes the documented intentional deviations listed in the "
+        "evidence assumptions.",
+        "DESIGN.md 5/C04",
+    ),
+    "C05": (
+        "exploration",
+        "exhaustive enumeration of small call graphs and of parser function "
+        "x argument pool, plus Hypothesis-generated cyclic libraries and "
+        "argument vectors, under a wall-clock watchdog; exception bucketing",
+        "Every call graph on <=3 templates, every parser function with every "
+        "pool value, and generated cyclic libraries / argument vectors / "
+        "#expr operator soups are expanded under a 20 s watchdog; any "
+        "exception, non-string or overrun is a violation, and divergence "
+        "predicted by the reference semantics must be reported in-band.",
+        "Trusts the watchdog (SIGALRM, pure-Python code), the reference "
+        "interpreter's loop/depth detector, and a 6 GB address-space limit "
+        "that turns runaway allocations into MemoryError.",
+        "DESIGN.md 5/C05",
+    ),
 }
 
 NOT_YET = "check not built yet in this round (planned in DESIGN.md section 5)"
